@@ -30,7 +30,7 @@ func init() {
 		Run:   runC14,
 		Explanation: "Decides clauses C14.1-C14.4 of DESIGN.md under the assumption policy == Parallel: (1) every return reachable inside the wanted loop and the scale-down loop carries err != nil; " +
 			"(2) from the entry of a wanted-loop iteration whose cell is not yet created, every path reaches the create primitive (no return, no skip to the next iteration before it); from the entry of a scale-down iteration whose target is not terminating every path reaches the delete primitive; " +
-			"(4) rolling update is still one at a time: the update delete is followed by return on every path, with no assumption on the policy. NOT decided: API error sequences; counts k and m as numbers.",
+			"(4) rolling update is still one at a time: the update delete is followed by return on every path, with no assumption on the policy. (C14.3) the update-walk rule also holds under the Parallel assumption. NOT decided: API error sequences; counts k and m as numbers.",
 	})
 }
 
